@@ -12,6 +12,11 @@ CHECKS = {
          "Every put/update/delete/expire/tick sequence over small key/time universes (incl. the constructor's boundary max==8*len*min) is executed on the real kademlia.Cache and compared with a reference map after every operation; states deduplicated by reference content + private bucket dump; exhaustive (closure) for the boundary configurations, depth-bounded for the TTL ones.",
          "Keys, times and TTLs outside the configured universes; cache values are opaque.",
          "5/C18", "seqmc"),
+ "C19": ("model_checking",
+         "exhaustive enumeration of cache contents x query keys and of short byte-string triples on the real code",
+         "Every subset of a 10-key universe (x3 loci) and of an 8-key mixed-length universe is loaded into a real Cache and queried with every 1-byte key plus shorter/longer keys: ForEach must visit each entry once in non-decreasing XOR distance, Closest must be a minimum, ForEachCloser/ForEachMatching must equal the brute-force sets; DHTNode.ListNodeInfos/HandleGet.Closer/HandleFindNode likewise over every subset of 7 peers; the comparison laws over all triples (and quadruples for transitivity) of byte strings of length <= 2 over {00,01,7f,80,ff}.",
+         "Longer keys and larger contents than the enumerated universes (the code is length-generic: loops over bytes).",
+         "5/C19", "seqmc"),
 }
 
 NOT_YET = "check not built yet in this round (planned in DESIGN.md section 5)"
